@@ -211,6 +211,41 @@ def run_protein_views():
         except BaseException as e:
             fail("py_scoring_shape", "protein matrix: raised %s: %s" % (type(e).__name__, str(e)[:80]), ctor="protein width=%d" % width)
 
+def run_flat_consumers():
+    """consumers that ask for a flat (strides-less) buffer: a padded / column-major object must refuse them, or hand out exactly
+    the logical bytes - never row padding, look-ahead rows or uninitialised memory"""
+    global cases
+    import binascii, struct
+    cols = {"A": [1.0, 10.0, 20.0], "C": [2.0, 11.0, 21.0], "G": [3.0, 12.0, 22.0], "T": [4.0, 13.0, 23.0]}
+    sm = lightmotif.ScoringMatrix(cols)
+    logical = b"".join(struct.pack("f", x) for i in range(3) for x in sm[i])
+    import io
+    def bio_write(o):
+        b = io.BytesIO(); b.write(o); return b.getvalue()
+    consumers = (("binascii.hexlify", lambda o: binascii.unhexlify(binascii.hexlify(o))), ("bytes.join", lambda o: b"".join([o])), ("BytesIO.write", bio_write))
+    text = "ACGTTGCA" * 5
+    st = lightmotif.stripe(text)
+    rows_ = (len(text) + 31) // 32
+    st_logical = bytes("ACTGN".index(text[c * rows_ + r]) if c * rows_ + r < len(text) else 4 for c in range(32) for r in range(rows_))
+    sc = sm.calculate(lightmotif.stripe(text))
+    objs = (("py_scoring_getbuffer", "ScoringMatrix(width=3)", sm, logical), ("py_striped_getbuffer", "stripe(L=40)", st, st_logical), ("py_scores_getbuffer", "scores(L=40,M=3)", sc, None))
+    for unit, ctor, obj, want in objs:
+        if want is None:
+            try:
+                mv = memoryview(obj); want = b"".join(struct.pack("f", mv[i, j]) for i in range(mv.shape[0]) for j in range(mv.shape[1]))
+            except BaseException:
+                continue
+        for name, fn in consumers:
+            cases += 1
+            try:
+                got = fn(obj)
+                if bytes(got) != want:
+                    fail(unit, "%s returned %d bytes that are not the %d logical bytes in view order (padding / layout visible to a consumer that did not ask for strides)" % (name, len(got), len(want)), ctor=ctor)
+            except (TypeError, BufferError, ValueError):
+                pass
+            except BaseException as e:
+                fail(unit, "%s raised %s" % (name, type(e).__name__), ctor=ctor)
+
 def nrows_seq(st, text):
     return (len(text) + 31) // 32
 
@@ -222,6 +257,7 @@ if MODE in ("sweep", "search"):
         run_held_view(w, l)
     run_edge_views()
     run_protein_views()
+    run_flat_consumers()
     want = ARG if MODE == "search" and ARG not in ("", "C18") else None
     shown = set()
     for f in fails:
@@ -244,6 +280,7 @@ elif MODE == "replay":
         run_held_view(w, l)
     run_edge_views()
     run_protein_views()
+    run_flat_consumers()
     still = [f for f in fails if f["unit"] == unit]
     if still:
         print("replay: STILL FAILS: " + still[0]["what"])
